@@ -7,6 +7,7 @@ let () =
     | "c03" -> C03.run_line
     | "c04" -> C04.run_line
     | "c16" -> C16.run_line
+    | "c17" -> C17.run_line
     | "c18" -> C18.run_line
     | "c19" -> C19.run_line
     | "c20" -> C20.run_line
